@@ -1,0 +1,19 @@
+// +build verif
+
+package stack
+
+// VerifCloseNetworkEndpoints closes every network endpoint of every NIC, whatever references to it are still
+// held: a harness that is done with a stack winds down the goroutines the endpoints own (ipv4's echo replier).
+// The stack must not be used afterwards.
+func (s *Stack) VerifCloseNetworkEndpoints() {
+	s.mu.Lock()
+	defer s.mu.Unlock()
+	for _, n := range s.nics {
+		n.mu.Lock()
+		for id, r := range n.endpoints {
+			delete(n.endpoints, id)
+			r.ep.Close()
+		}
+		n.mu.Unlock()
+	}
+}
